@@ -210,7 +210,9 @@ class IDMan(Set[int]):
     def discard(self, element: int) -> None:
         """Return the specified ID for others to use, or do nothing if already removed."""
         self._used.discard(element)
-        if element < self.search_pos:
+        # IDs are positive. Discarding something else (a "no ID" sentinel like -1) must not
+        # make the search hand out zero or negative IDs.
+        if 0 < element < self.search_pos:
             self.search_pos = element
 
     def remove(self, element: int) -> None:
